@@ -9,7 +9,7 @@ import numpy
 from hypothesis import strategies as st
 
 from .. import arr as A
-from ..core import sstr, Failure, drive
+from ..core import sstr, Failure, drive, drive_enum
 
 ID = "C18"
 LEVEL = "exploration"
@@ -405,9 +405,22 @@ def read_cases(draw):
     return case
 
 
+def wide_range_cases():
+    """Values towards the ends of the 64-bit ranges: whole doubles above 2**63 read as unsigned integers, unsigned and
+    signed 64-bit variables holding their extremes, each with and without a MissingValue."""
+    dims = [{"name": "x", "size": 4, "dtype": "f8", "values": [1, 2, 3, 4], "attrs": {}}]
+    rows = [("f8", "Positive Integer", [2.0 ** 63 + 4096, 1.5e19, 2.0 ** 64 - 2048, 7.25]), ("f8", "Positive Integer", [2.0 ** 63, 2.0 ** 62, 0.5, 3.0]),
+            ("f8", "Integer", [2.0 ** 62, -2.0 ** 62, -2.0 ** 63, 7.75]), ("u8", "Positive Integer", [2 ** 63 + 5, 2 ** 64 - 3, 2 ** 63, 7]),
+            ("i8", "Integer", [2 ** 63 - 1, -2 ** 63 + 1, 2 ** 53 + 1, -7]), ("f8", "Positive Float", [2.0 ** 63 + 4096, 1e300, 5e-324, 0.0])]
+    for store, dt, data in rows:
+        for mv in (None, 7, -9999 if not dt.startswith("Positive") else 3):
+            yield {"dims": dims, "var": {"name": "v", "dtype": store, "data": data, "mask": None, "fill": None}, "datatype": dt, "missing": mv}
+
+
 PARTS = {"write": check_write, "read": check_read}
 
 
 def run_shard(ctx, rec):
     drive(ctx, rec, "write", write_cases(), check_write, ctx.n(700, 20000))
     drive(ctx, rec, "read", read_cases(), check_read, ctx.n(900, 20000), max_novel=8)
+    drive_enum(ctx, rec, "read", wide_range_cases(), check_read, exhaustive=True, tag="read/wide_range")
